@@ -214,10 +214,14 @@ class Gen:
                 h.append(["late_started", r.randrange(4)])
             elif q < 0.89:
                 h.append(["late_finished", r.randrange(4)])
-            elif q < 0.95:
+            elif q < 0.93:
                 h.append(["again", 0])
+            elif q < 0.965:
+                h.append(["age", 0])     # more than 5 s pass: the next event's clean-up discards old instances
             else:
                 h.append(["finished_unknown", 0])
+        if r.random() < 0.25:
+            h.insert(r.randrange(len(h) + 1), ["age", 0])
         if sweep:
             if r.random() < 0.6:
                 h.insert(r.randrange(len(h) + 1), ["late_started", r.randrange(4)])
@@ -278,6 +282,18 @@ SEEDS = [
     # two reference instances of one flow (different parameters), each with its own activators
     ("flow main\n  start f1\n  start f2\n  match Never()\n\nflow f1\n  activate f3 \"a\"\n  activate f3 \"b\"\n  match E1()\n\nflow f2\n  activate f3 \"a\"\n  activate f3 \"a\"\n  match E0()\n\nflow f3 $x\n  match E2()\n  start UtteranceBotAction(script=$x)\n",
      [["ev", 2], ["ev", 1], ["ev", 2], ["ev", 0], ["ev", 2]]),
+    # AGED state: the first instance of an activated flow has ended and was restarted, > 5 s pass, then the
+    # activator ends (the running instance must stop) / the instance ends by itself (must restart)
+    ("flow main\n  start f1\n  match Never()\n\nflow f1\n  activate f2\n  match E1()\n\nflow f2\n  match E0()\n  start UtteranceBotAction(script=\"a\")\n",
+     [["ev", 0], ["age", 0], ["ev", 3], ["ev", 1], ["ev", 0]]),
+    ("flow main\n  start f1\n  match Never()\n\nflow f1\n  activate f2\n  match E1()\n\nflow f2\n  match E0()\n",
+     [["ev", 0], ["age", 0], ["ev", 0], ["age", 0], ["ev", 0], ["ev", 1], ["ev", 0]]),
+    # AGED: two activators, the first (the parent of the reference instance) ended long ago
+    ("flow main\n  start f1\n  start f2\n  match Never()\n\nflow f1\n  activate f3\n  match E1()\n\nflow f2\n  activate f3\n  match E2()\n\nflow f3\n  match E0()\n",
+     [["ev", 1], ["age", 0], ["ev", 0], ["age", 0], ["ev", 3], ["ev", 2], ["ev", 0]]),
+    # AGED parent/child family: the child of a flow that ended long ago, grandchildren
+    ("flow main\n  start f1\n  match Never()\n\nflow f1\n  start f2\n  await f3\n  match E1()\n\nflow f2\n  start f3\n  match E2()\n\nflow f3\n  match E0()\n  await UtteranceBotAction(script=\"b\")\n",
+     [["ev", 0], ["age", 0], ["ev", 3], ["ev", 2], ["age", 0], ["ev", 3], ["ev", 1]]),
     # ... or is stopped by its parent
     ("flow main\n  start f1 as $r1\n  match E1()\n  send $r1.Stop()\n  match Never()\n\nflow f1\n  start UtteranceBotAction(script=\"a\") as $a1\n  start f2\n  match E0()\n  send $a1.Stop()\n  match Never()\n\nflow f2\n  await GestureBotAction(gesture=\"g\")\n",
      [["ev", 0], ["ev", 1], ["finished", 0]]),
@@ -330,6 +346,18 @@ def _params_match(sm, state, inst, event):
         if not ok:
             return False
     return True
+
+
+class Clock:
+    """Controllable clock substituted for `datetime` in statemachine.py / flows.py (only .now() is used
+    there): real time plus an offset that the history advances (`age` items)."""
+    offset = 0.0
+
+    @staticmethod
+    def now(*a, **k):
+        import datetime as _dt
+
+        return _dt.datetime.now(*a, **k) + _dt.timedelta(seconds=Clock.offset)
 
 
 class Recorder:
@@ -821,6 +849,10 @@ def run_one(sm, fl, U, src, history, policy):
         for item in history:
             step += 1
             stopped = [a for a in orc.started if orc.stops.get(a, 0) > 0 and a not in orc.finished_delivered]
+            if item[0] == "age":
+                Clock.offset += 6.0
+                step -= 1
+                continue
             if item[0] == "again" and prev_ev is not None:
                 ev = dict(prev_ev)
             elif item[0] == "finished_unknown":
@@ -877,6 +909,8 @@ def worker_main(infile, outfile):
     from harness import v2util as U
 
     jobs = json.load(open(infile))
+    sm.datetime = Clock
+    fl.datetime = Clock
     with open(outfile, "a") as out:
         try:
             RECORDER = Recorder(sm, fl)
